@@ -8,3 +8,6 @@ import Dm.Props.C14
 #print axioms Dm.Props.C14.asref_listed_field_type_is_identity
 #print axioms Dm.Props.C14.asref_other_type_forwards
 #print axioms Dm.Props.C14.asref_plain_and_forward
+#print axioms Dm.Props.C14.field_setting_overrides_inherited
+#print axioms Dm.Props.C14.unset_inherits
+#print axioms Dm.Props.C14.not_forward_field_is_direct
